@@ -1,8 +1,160 @@
 import Genshi.Wire
+import Genshi.Model.Incl
 namespace Driver.C11
-open Genshi
+open Genshi Genshi.Incl Genshi.Sexp
 
-/-- stub: the model driver for C11 is not built yet -/
-def handle : List Sexp → Option Sexp := fun _ => none
+/-
+  verbs
+    render <inline|inline-marked|runtime> <fuel> <files> <entry> <markup|text> <data>
+        (inline: prepared streams as the code leaves them; inline-marked: with the cost markers of the exact-fuel theorem)
+        files = ( dir … )   dir = ( ( name kind body ) … )   body = N (ill-formed) | ( node … )
+        node  = ( text s ) ( var x ) ( elem tag ( node … ) ) ( if ( var|not x ) ( node … ) )
+                ( for x xs ( node … ) ) ( def m ( node … ) ) ( call m ) ( match tag ( node … ) ) ( content )
+                ( include href cls fb )      href = ( fix s ) | ( dyn ( lit s ) | ( var x ) … )
+                                             cls = markup|text    fb = N | ( node … )
+        data  = ( ( name value ) … )   value = ( v str ) | ( l value … )
+      → ( ok ( S tag ) | ( E tag ) | ( T s ) … ) | ( err NotFound|Syntax|Undefined ) | fuel | unmodelled
+    chain <inline|inline-marked|runtime> <fuel> <files> ( ( entry kind data ) … )
+        → ( outcome … ) : the requests answered one after the other through one loader
+    kept <files> <entry> <kind>   → ( ok target … ) | err : resolved targets of the statically named includes
+                                    still present in the prepared entry, in document order
+    inh <files>            → T | F     (the theorem's hypothesis, with T = all match tags of the file set)
+    resolve <pos> <href>   → name | N
+-/
+
+def kind? : Sexp → Option Kind
+  | .atom "markup" => some .markup
+  | .atom "text" => some .text
+  | _ => none
+
+def part? : Sexp → Option Part
+  | .list [.atom "lit", .str s] => some (.lit s)
+  | .list [.atom "var", .str x] => some (.var x)
+  | _ => none
+
+def href? : Sexp → Option Href
+  | .list [.atom "fix", .str s] => some (.static s)
+  | .list (.atom "dyn" :: ps) => (ps.mapM part?).map .dyn
+  | _ => none
+
+def cond? : Sexp → Option Cond
+  | .list [.atom "var", .str x] => some (.var x)
+  | .list [.atom "not", .str x] => some (.notVar x)
+  | _ => none
+
+mutual
+partial def node? (pos : Name) : Sexp → Option Node
+  | .list [.atom "text", .str s] => some (.text s)
+  | .list [.atom "var", .str x] => some (.var x)
+  | .list [.atom "call", .str m] => some (.call m)
+  | .list [.atom "content"] => some .select
+  | .list [.atom "elem", .str t, .list b] => (nodes? pos b).map (.elem t)
+  | .list [.atom "if", c, .list b] => do let c ← cond? c; let b ← nodes? pos b; pure (.cond c b)
+  | .list [.atom "for", .str x, .str xs, .list b] => (nodes? pos b).map (.loop x xs)
+  | .list [.atom "def", .str m, .list b] => (nodes? pos b).map (.defn m)
+  | .list [.atom "match", .str t, .list b] => (nodes? pos b).map (.matchT t)
+  | .list [.atom "include", h, k, .atom "N"] => do
+      let h ← href? h; let k ← kind? k; pure (.include h k false [] pos)
+  | .list [.atom "include", h, k, .list fb] => do
+      let h ← href? h; let k ← kind? k; let fb ← nodes? pos fb; pure (.include h k true fb pos)
+  | _ => none
+partial def nodes? (pos : Name) (xs : List Sexp) : Option (List Node) := xs.mapM (node? pos)
+end
+
+def file? : Sexp → Option (Name × File)
+  | .list [.str name, k, .atom "N"] => do let k ← kind? k; pure (name, ⟨k, none⟩)
+  | .list [.str name, k, .list b] => do let k ← kind? k; let b ← nodes? name b; pure (name, ⟨k, some b⟩)
+  | _ => none
+
+def files? : Sexp → Option Files
+  | .list ds => ds.mapM fun
+    | .list fs => fs.mapM file?
+    | _ => none
+  | _ => none
+
+partial def value? : Sexp → Option Value
+  | .list [.atom "v", .str s] => some (.str s)
+  | .list (.atom "l" :: vs) => (vs.mapM value?).map .list
+  | _ => none
+
+def data? : Sexp → Option (List (Name × Value))
+  | .list kvs => kvs.mapM fun
+    | .list [.str k, v] => do let v ← value? v; pure (k, v)
+    | _ => none
+  | _ => none
+
+/-- what a text template can express (no syntax for elements and match templates; an include
+carries the template's own class and the empty fallback) -/
+partial def textOk : List Node → Bool
+  | [] => true
+  | n :: ns =>
+    (match n with
+     | .text _ | .var _ | .call _ => true
+     | .cond _ b | .loop _ _ b | .defn _ b => textOk b
+     | .include _ cls hasFb fb _ => cls == .text && hasFb && fb.isEmpty
+     | _ => false) && textOk ns
+
+def modelled (files : Files) : Bool :=
+  files.all fun d => d.all fun e =>
+    match e.2.kind, e.2.body with
+    | .text, some b => textOk b
+    | _, _ => true
+
+def evOut : Ev → Sexp
+  | .start t => .list [.atom "S", .str t]
+  | .stop t => .list [.atom "E", .str t]
+  | .text s => .list [.atom "T", .str s]
+
+def resOut : Res (List Ev) → Sexp
+  | .fuel => .atom "fuel"
+  | .err .unmodelled => .atom "unmodelled"
+  | .err .notFound => .list [.atom "err", .atom "NotFound"]
+  | .err .syntaxErr => .list [.atom "err", .atom "Syntax"]
+  | .err .undefined => .list [.atom "err", .atom "Undefined"]
+  | .ok evs => .list (.atom "ok" :: evs.map evOut)
+
+def handle : List Sexp → Option Sexp
+  | [.atom "render", .atom mode, fuel, files, .str entry, kind, data] => do
+      let fuel ← fuel.toNat?
+      let files ← files? files
+      let kind ← kind? kind
+      let data ← data? data
+      if !modelled files then pure (.atom "unmodelled") else
+      match mode with
+      | "inline" => pure (resOut (renderInlineReal files entry kind data fuel))
+      | "inline-marked" => pure (resOut (renderInline files entry kind data fuel))
+      | "runtime" => pure (resOut (renderRuntime files entry kind data fuel))
+      | _ => none
+  | [.atom "chain", .atom mode, fuel, files, .list reqs] => do
+      let fuel ← fuel.toNat?
+      let files ← files? files
+      let reqs ← reqs.mapM fun
+        | .list [.str entry, kind, data] => do
+            let kind ← kind? kind
+            let data ← data? data
+            pure ((entry, kind, data) : Req)
+        | _ => none
+      if !modelled files then pure (.atom "unmodelled") else
+      let m ← match mode with
+        | "inline" => some Mode.inlineU
+        | "inline-marked" => some Mode.inlineM
+        | "runtime" => some Mode.runtime
+        | _ => none
+      pure (.list ((renderSeq m files fuel [] reqs).map resOut))
+  | [.atom "kept", files, .str entry, kind] => do
+      let files ← files? files
+      let kind ← kind? kind
+      match loadInl files entry kind [] with
+      | .ok r => pure (.list (.atom "ok" :: (targetsL r.1).map .str))
+      | .err _ => pure (.atom "err")
+      | .fuel => pure (.atom "fuel")
+  | [.atom "inh", files] => do
+      let files ← files? files
+      pure (ofBool (inH (matchTags files) files))
+  | [.atom "resolve", .str pos, .str href] =>
+      match resolve pos href with
+      | some n => some (.str n)
+      | none => some (.atom "N")
+  | _ => none
 
 end Driver.C11
